@@ -212,11 +212,25 @@ var ruleZipSignatures = &core.Rule{ID: "R19.2", Min: 10,
 		visit = func(n *tree.Node) {
 			for _, ch := range n.Children {
 				visit(ch)
-				if ch.DetCtor == nil || len(ch.DetCtor.Call.Args) != 2 {
+				if ch.DetFn == nil || ch.DetFn.Blocks == nil || len(ch.DetFn.Params) == 0 {
 					continue
 				}
-				sig, ok1 := tree.ConstBytes(ch.DetCtor.Call.Args[0])
-				off, ok2 := core.ConstInt(ch.DetCtor.Call.Args[1])
+				// the detector's prefix test HasPrefix(raw[k:], sig), folded in the closure's binding environment
+				env := detEnv(ch)
+				var sig []byte
+				var off int64
+				ok1, ok2 := false, false
+				for _, ci := range core.Calls(ch.DetFn) {
+					if !core.CalleeIs(ci.Common(), "bytes", "HasPrefix") {
+						continue
+					}
+					sl, isSl := ci.Common().Args[0].(*ssa.Slice)
+					if !isSl || sl.X != ssa.Value(ch.DetFn.Params[0]) || sl.High != nil || sl.Low == nil {
+						continue
+					}
+					sig, ok1 = env.foldBytes(ci.Common().Args[1])
+					off, ok2 = env.foldInt(sl.Low)
+				}
 				if !ok1 || !ok2 || !bytes.HasPrefix(sig, []byte("mimetype")) {
 					continue
 				}
@@ -253,8 +267,13 @@ var ruleZipSignatures = &core.Rule{ID: "R19.2", Min: 10,
 			}
 		}
 		// the offset constructor really tests HasPrefix(raw[k:], sig) under len(raw) > k
+		shapeDone := map[*ssa.Function]bool{}
 		for _, a := range sigs {
 			f := a.n.DetFn
+			if shapeDone[f] {
+				continue
+			}
+			shapeDone[f] = true
 			okShape := false
 			for _, ci := range core.Calls(f) {
 				if core.CalleeIs(ci.Common(), "bytes", "HasPrefix") {
@@ -287,7 +306,6 @@ var ruleZipSignatures = &core.Rule{ID: "R19.2", Min: 10,
 				}
 			}
 			s.Check(okShape && extra == "", "offset detector shape of "+a.n.Name, c.Pos(f.Pos()), "len(raw) > k && HasPrefix(raw[k:], sig), nothing else", "the offset constructor does not test exactly a prefix of raw[k:] under a length guard (extra condition at "+extra+")")
-			break // one closure body serves all
 		}
 	}}
 
